@@ -336,6 +336,16 @@ def run(ctx):
     for _ in range(ctx.n(3000, 200_000)):
         kind = r.choice(KINDS9)
         k_msg(ctx, kind, rand_msg(r, kind))
+    # the marker octets 'cfdp' (63 66 64 70) appearing again inside the message fields: in names and inside ids
+    from spverif.core.util import HAZARD_NAMES
+    for hz in HAZARD_NAMES:
+        if len(hz.encode()) <= 100:
+            k_msg(ctx, "listing_request", {"path": hz, "file": "f"})
+            k_msg(ctx, "listing_response", {"success": 1, "path": "p", "file": hz})
+            k_msg(ctx, "put_request", {"dest_id": [4, 0x63666470], "src": hz, "dst": "cfdp"})
+    for w, v in ((4, 0x63666470), (8, 0x6366647063666470), (8, 0x0063666470000000), (2, 0x6366), (4, 0x66647000)):
+        k_msg(ctx, "originating_id", {"src": [w, v], "seq": [w, v]})
+        k_msg(ctx, "put_request", {"dest_id": [w, v], "src": "a", "dst": "b"})
     for j in range(ctx.n(800, 60_000)):
         k_field_reuse(ctx, ctx.seed * 1_000_003 + ctx.shard[0] * 100_003 + j)
     # negative clause
